@@ -47,6 +47,7 @@ pub struct VJob {
     pub mf: Option<u32>,
     pub n_submits: u32,
     pub counters: [u32; 5],
+    pub terminated: bool,
     pub tasks: Vec<(u32, &'static str, Option<(u32, Vec<u32>)>)>,
 }
 
@@ -112,6 +113,7 @@ fn fill_view(v: &mut View, x: &mut Restored) {
             mf: j.max_fails,
             n_submits: j.n_submits as u32,
             counters: [c.n_running_tasks, c.n_finished_tasks, c.n_failed_tasks, c.n_canceled_tasks, c.n_aborted_tasks],
+            terminated: j.is_terminated,
             tasks: j.tasks.iter().map(|t| { let (k, sd) = state_view(&t.state); (t.id, k, sd) }).collect(),
         });
     }
@@ -190,9 +192,9 @@ impl View {
     }
 
     /// what C12 compares: unfinished jobs, outcomes, pending tasks (deps / instance / crash), queues
-    pub fn restore_view(&self, with_crash: bool) -> Vec<String> {
+    pub fn restore_view(&self, with_crash: bool, with_qres: bool) -> Vec<String> {
         let mut l = vec![format!("status {}", self.status)];
-        for (q, r) in &self.queues { l.push(format!("queue {q} {r}")); }
+        for (q, r) in &self.queues { if with_qres { l.push(format!("queue {q} worker_resources={r}")); } else { l.push(format!("queue {q}")); } }
         for (id, j) in &self.jobs {
             l.push(format!("job {id} {} {:?} {}", j.open, j.mf, j.n_submits));
             for (t, k, _) in &j.tasks { l.push(format!("task {id} {t} {k}")); }
@@ -388,15 +390,19 @@ impl Exec {
             tr.mon_fail("c12.wf", "pruned-journal-does-not-restore", &format!("restore(prune J) = {} while restore(J) = ok", v.status));
             return;
         }
-        let (a1, b1) = (v.restore_view(true), b.restore_view(true));
-        if a1 != b1 {
-            let (a0, b0) = (v.restore_view(false), b.restore_view(false));
-            let diff = a1.iter().zip(b1.iter()).find(|(x, y)| x != y).map(|(x, y)| format!("pruned: `{x}` unpruned: `{y}`")).unwrap_or_else(|| format!("{} vs {} lines", a1.len(), b1.len()));
-            if a0 == b0 {
-                tr.mon_fail("c12.prune_equiv", "crash-count-workerlost-pruned", &diff);
-            } else {
-                tr.mon_fail("c12.prune_equiv", "restore-view-differs", &diff);
-            }
+        let diff = |a: &Vec<String>, b: &Vec<String>| a.iter().zip(b.iter()).find(|(x, y)| x != y).map(|(x, y)| format!("pruned: `{x}` unpruned: `{y}`")).unwrap_or_else(|| format!("{} vs {} lines", a.len(), b.len()));
+        // the three components separately, so that each mechanism gets its own stable signature
+        let (a0, b0) = (v.restore_view(false, false), b.restore_view(false, false));
+        if a0 != b0 {
+            tr.mon_fail("c12.prune_equiv", "restore-view-differs", &diff(&a0, &b0));
+        }
+        let (a1, b1) = (v.restore_view(true, false), b.restore_view(true, false));
+        if a0 == b0 && a1 != b1 {
+            tr.mon_fail("c12.prune_equiv", "crash-count-workerlost-pruned", &diff(&a1, &b1));
+        }
+        let (a2, b2) = (v.restore_view(false, true), b.restore_view(false, true));
+        if a0 == b0 && a2 != b2 {
+            tr.mon_fail("c12.prune_equiv", "queue-worker-resources-workerconnected-pruned", &diff(&a2, &b2));
         }
     }
 }
@@ -433,6 +439,11 @@ fn monitor_c10_c11(tr: &mut Trace, v: &View, spec: &Spec, fail_before_start: boo
         if rj.counters != want {
             let sig = if sj.n_submits > 1 { "counters-readded-per-submit" } else { "counters" };
             tr.mon_fail("c10.counters", sig, &format!("job {id} ({} submits): counters [run,fin,fail,canc,abort]={:?}, task states give {:?}", sj.n_submits, rj.counters, want));
+        }
+        let spec_terminated = !sj.open && sj.tasks.iter().all(|a| a.st != Outcome::Waiting);
+        if rj.terminated != spec_terminated {
+            let sig = if sj.n_submits > 1 { "job-terminated-flag-wrong-counters-readded" } else { "job-terminated-flag" };
+            tr.mon_fail("c10.counters", sig, &format!("job {id}: Job::is_terminated()={} after restore, the journal says {}", rj.terminated, spec_terminated));
         }
     }
     // --- c10.resubmit: every non-terminal task exactly once, deps = original minus completed
